@@ -65,6 +65,7 @@ structure Profile where
   boot : Option Nat       -- BootstrapOTP: expiry of the stored hash
   hasU2F : Bool
   hasWA : Bool
+  extraTotp : Bool        -- a further TOTP device was enrolled during the history (/totp/GenerateNew + ValidateNew)
 deriving DecidableEq, Repr
 
 structure CliTok where
@@ -106,6 +107,9 @@ inductive Op
   | oktaPoll (cs : Cookies)
   | tick
   | sweep
+  | totpEnrol (cs : Cookies)                 -- /totp/GenerateNew/ then /totp/ValidateNew/ with the new device's code
+  | totpRename (cs : Cookies) (u : User)     -- /api/v0/manageTOTPToken action=Update on u's first device
+  | hwRename (cs : Cookies) (u : User)       -- /api/v0/manageU2FToken action=Update on u's first token
   | fault (save load : Bool)   -- world: the primary profile store starts/stops refusing writes / reads
 deriving DecidableEq, Repr
 
@@ -290,6 +294,9 @@ def hTotp (v : Variant) (s : State) (c : Option Cookie) (code : Option (User × 
 def clearBoot (s : State) (u : User) : State :=
   { s with prof := upd s.prof u { s.prof u with boot := none } }
 
+/-- `len(profile.TOTPAuthData) > 0` -/
+def hasTotpData (p : Profile) : Bool := p.hasTotp || p.extraTotp
+
 def hBootstrap (s : State) (c : Option Cookie) (owner : Option User) : Res :=
   match auth s c with
   | none => (s, 401, [])
@@ -297,7 +304,7 @@ def hBootstrap (s : State) (c : Option Cookie) (owner : Option User) : Res :=
     match (s.prof ck.sub).boot with
     | none => (s, 412, [])
     | some e =>
-      if (s.prof ck.sub).hasU2F = true ∨ (s.prof ck.sub).hasTotp = true ∨ e ≤ s.now then (s, 412, [])
+      if (s.prof ck.sub).hasU2F = true ∨ hasTotpData (s.prof ck.sub) = true ∨ e ≤ s.now then (s, 412, [])
       else if owner = some ck.sub then
         if s.saveFails = true then (s, 500, [])    -- the cleared OTP could not be saved: no upgrade
         else (clearBoot s ck.sub, 200, [bump ck authTypeBootstrapOTP])
@@ -366,6 +373,33 @@ def hWaFinish (v : Variant) (s : State) (c : Option Cookie) (a : Option Assertio
           else if a.owner = ck.sub ∧ a.kind = .wa ∧ (s.prof ck.sub).hasWA = true ∧ a.chal = ch.id then
             (delChal s ck.sub, 200, [bump ck (authTypeFIDO2 ||| authTypeU2F)])
           else (s, 400, [])
+
+/-! profile management by the user: handlers that load, modify and save the profile. None of them may
+touch the replay guards (`lastTotp`, `boot`, pending challenges). -/
+
+def setExtraTotp (s : State) (u : User) : State :=
+  { s with prof := upd s.prof u { s.prof u with extraTotp := true } }
+
+def hTotpEnrol (s : State) (c : Option Cookie) : Res :=
+  match auth s c with
+  | none => (s, 401, [])
+  | some ck =>
+    if ck.level &&& webUIMask = 0 then (s, 401, [])
+    else if s.loadFails = true then (s, 500, [])
+    else if s.saveFails = true then (s, 500, [])
+    else (setExtraTotp s ck.sub, 302, [])
+
+/-- rename (action=Update) of the first device of `u`; `present` = that device exists -/
+def hRename (s : State) (c : Option Cookie) (u : User) (present : Bool) : Res :=
+  match auth s c with
+  | none => (s, 401, [])
+  | some ck =>
+    if ck.level &&& webUIMask = 0 then (s, 401, [])
+    else if u ≠ ck.sub then (s, 401, [])            -- nobody is an admin here
+    else if s.loadFails = true then (s, 500, [])
+    else if present = false then (s, 400, [])
+    else if s.saveFails = true then (s, 500, [])
+    else (s, 200, [])
 
 def hShowToken (s : State) (c : Option Cookie) (life : Nat) : Res :=
   match auth s c with
@@ -448,6 +482,9 @@ def handle0 (v : Variant) (s : State) : Op → Res
   | .oktaPoll c => hOktaPoll s (caller c)
   | .tick => ({ s with now := s.now + 1 }, 1, [])
   | .sweep => ({ s with push := sweepPush s, chal := sweepChal s }, 1, [])
+  | .totpEnrol c => hTotpEnrol s (caller c)
+  | .totpRename c u => hRename s (caller c) u (s.prof u).hasTotp
+  | .hwRename c u => hRename s (caller c) u ((s.prof u).hasU2F || (s.prof u).hasWA)
   | .fault sv ld => ({ s with saveFails := sv, loadFails := ld }, 1, [])
 
 /-- handlers that load the user's profile right after `checkAuth` (before any other decision) -/
@@ -486,7 +523,7 @@ def bootOf (t0 : Nat) (c : UserCfg) : Option Nat := if c.bootLife = 0 then none 
 def init (t0 : Nat) (okta : Bool) (cfg : User → UserCfg) : State :=
   { now := t0, okta := okta, saveFails := false, loadFails := false, cookies := [], push := fun _ => none, svcTx := fun _ => none, nextTx := 0,
     chal := fun _ => none, nextChal := 0,
-    prof := fun u => ⟨(cfg u).totp, 0, bootOf t0 (cfg u), (cfg u).u2f, (cfg u).wa⟩,
+    prof := fun u => ⟨(cfg u).totp, 0, bootOf t0 (cfg u), (cfg u).u2f, (cfg u).wa, false⟩,
     bootIssued := fun u => bootOf t0 (cfg u), toks := [],
     oktaSess := fun _ => false, oktaPushed := fun _ => false, oktaApproved := fun _ => false, log := [] }
 
